@@ -205,6 +205,14 @@ def oracle(tier, rng, deep=False):
             flags = ["max_iter=0"] if budget0 else []
             failures.append(dict(site=f"certificate:{sname}:{'+'.join(flags) or 'generic'}", input=inp,
                                  observed=dict(stop_crit=stop, tol=tol, w=w.tolist(), b=b), expected=dict(violation=viol, worst=worst)))
+    # MultiTaskBCD.path: the model-fit buffer is reused from one alpha to the next
+    for _ in range(4 if tier == "quick" and not deep else 25):
+        try:
+            e_, f_ = sl.mtl_path_certificates(rng, "certificate:MultiTaskBCD:path")
+            ev += e_; nontriv += e_
+            failures += f_
+        except Exception as e:
+            failures.append(dict(site="raises:MultiTaskBCD:path", input={}, observed=repr(e)[:300]))
     return dict(evaluations=ev, distinct_nontrivial=nontriv, failures=failures, samples=samples)
 
 
